@@ -3,6 +3,7 @@ package main
 import (
 	"encoding/hex"
 	"fmt"
+	"math/big"
 	"sort"
 
 	"verifharness/vh"
@@ -533,6 +534,195 @@ func genSch(r *vh.Rand, batch bool) Case {
 	return cs
 }
 
+// ---- linear-cancellation families ----------------------------------------------------------
+// k >= 2 valid signatures over one message are each made individually invalid by a known
+// amount, the amounts chosen so that sum z_i*delta_i vanishes whenever the batch coefficients
+// are all equal / repeat with period 2 / are the guessed small weights.
+
+func rndDelta(r *vh.Rand) *big.Int {
+	for {
+		v := r.Big(252)
+		v.Mod(v, ordL)
+		if v.Sign() != 0 {
+			return v
+		}
+	}
+}
+
+func negSum(vs []*big.Int) *big.Int {
+	t := new(big.Int)
+	for _, v := range vs {
+		t.Add(t, v)
+	}
+	t.Neg(t)
+	return t.Mod(t, ordL)
+}
+
+// n values summing to 0 mod l, none of them 0
+func zeroSum(r *vh.Rand, n int) []*big.Int {
+	for {
+		var vs []*big.Int
+		for i := 0; i < n-1; i++ {
+			vs = append(vs, rndDelta(r))
+		}
+		last := negSum(vs)
+		if last.Sign() != 0 {
+			return append(vs, last)
+		}
+	}
+}
+
+var cancelFamilies = []string{"cancel-pair", "cancel-sum", "cancel-period2", "cancel-weighted", "cancel-R", "cancel-mixed"}
+
+func genCancelBatch(r *vh.Rand, fam string) Case {
+	if fam == "" {
+		fam = cancelFamilies[r.Intn(len(cancelFamilies))]
+	}
+	var ds, dr, zs []*big.Int
+	n := 2
+	same := func(n int) []*big.Int {
+		z := r.Big(128)
+		z.Add(z, big.NewInt(1))
+		out := make([]*big.Int, n)
+		for i := range out {
+			out[i] = z
+		}
+		return out
+	}
+	switch fam {
+	case "cancel-pair":
+		ds, zs = zeroSum(r, 2), same(2)
+	case "cancel-sum":
+		n = r.Range(3, 6)
+		ds, zs = zeroSum(r, n), same(n)
+	case "cancel-period2":
+		n = []int{4, 6, 8}[r.Intn(3)]
+		ev, od := zeroSum(r, n/2), zeroSum(r, n/2)
+		pq := []*big.Int{r.Big(128), new(big.Int).Add(r.Big(127), big.NewInt(3))}
+		for i := 0; i < n; i++ {
+			if i%2 == 0 {
+				ds = append(ds, ev[i/2])
+			} else {
+				ds = append(ds, od[i/2])
+			}
+			zs = append(zs, pq[i%2])
+		}
+	case "cancel-weighted":
+		n = r.Range(2, 4)
+		for {
+			zs = nil
+			for i := 0; i < n; i++ {
+				zs = append(zs, big.NewInt(int64(r.Range(1, 4))))
+			}
+			if !(n == 2 && zs[0].Int64() == 1 && zs[1].Int64() == 3) {
+				break
+			}
+		}
+		acc := new(big.Int)
+		for i := 0; i < n-1; i++ {
+			d := rndDelta(r)
+			ds = append(ds, d)
+			acc.Add(acc, new(big.Int).Mul(zs[i], d))
+		}
+		inv := new(big.Int).ModInverse(zs[n-1], ordL)
+		last := acc.Neg(acc).Mul(acc, inv)
+		ds = append(ds, last.Mod(last, ordL))
+	case "cancel-R":
+		n = r.Range(2, 4)
+		dr, zs = zeroSum(r, n), same(n)
+	case "cancel-mixed":
+		d := rndDelta(r)
+		ds = []*big.Int{d, nil}
+		dr = []*big.Int{nil, d}
+		zs = same(2)
+	}
+	cs := Case{Op: "batch", Kind: fam, Msg: hex.EncodeToString(r.Bytes(32)), TxType: -1}
+	for i := 0; i < n; i++ {
+		a, k := newPriv(r), newPriv(r)
+		e := SchEntry{Priv: hex.EncodeToString(a[:]), Nonce: hex.EncodeToString(k[:]), Mode: "honest"}
+		if i < len(ds) && ds[i] != nil {
+			e.DS = ds[i].String()
+		}
+		if i < len(dr) && dr[i] != nil {
+			e.DR = dr[i].String()
+		}
+		cs.Entries = append(cs.Entries, e)
+		cs.Zs = append(cs.Zs, zs[i].String())
+	}
+	return cs
+}
+
+var cancelInputKinds = []string{"cancel-in-pair", "cancel-in-sum", "cancel-in-R", "cancel-in-cross", "cancel-in-mixed"}
+
+// the same through the whole validation: a multisig input whose needed signatures are
+// perturbed with amounts that cancel under equal batch coefficients
+func genCancelInputs(r *vh.Rand, kind string) Case {
+	if kind == "" {
+		kind = cancelInputKinds[r.Intn(len(cancelInputKinds))]
+	}
+	p := &pool{r: r}
+	nIn := 1 + r.Intn(2)
+	if kind == "cancel-in-cross" {
+		nIn = 2
+	}
+	var ins []InputSpec
+	for i := 0; i < nIn; i++ {
+		n := r.Range(2, 8)
+		in := InputSpec{Type: 0}
+		for j := 0; j < n; j++ {
+			in.Keys = append(in.Keys, p.fresh())
+		}
+		t := r.Range(2, n)
+		if kind == "cancel-in-sum" && n >= 3 && t < 3 {
+			t = 3
+		}
+		in.Script = scriptHex(t)
+		honestSigs(r, &in, t)
+		ins = append(ins, in)
+	}
+	set := func(sp *SigSpec, d *big.Int, onR bool) {
+		if onR {
+			sp.DR = d.String()
+		} else {
+			sp.DS = d.String()
+		}
+	}
+	v := r.Intn(nIn)
+	in := &ins[v]
+	switch kind {
+	case "cancel-in-pair", "cancel-in-R", "cancel-in-mixed":
+		idx := subset(r, len(in.Sigs), 2)
+		d := zeroSum(r, 2)
+		switch kind {
+		case "cancel-in-pair":
+			set(&in.Sigs[idx[0]], d[0], false)
+			set(&in.Sigs[idx[1]], d[1], false)
+		case "cancel-in-R":
+			set(&in.Sigs[idx[0]], d[0], true)
+			set(&in.Sigs[idx[1]], d[1], true)
+		default: // delta = -ds on one entry, +dr on the other
+			set(&in.Sigs[idx[0]], d[0], false)
+			set(&in.Sigs[idx[1]], d[0], true)
+		}
+	case "cancel-in-sum":
+		m := len(in.Sigs)
+		if m > 3 {
+			m = r.Range(3, m)
+		}
+		idx := subset(r, len(in.Sigs), m)
+		d := zeroSum(r, len(idx))
+		for q, i := range idx {
+			set(&in.Sigs[i], d[q], false)
+		}
+	case "cancel-in-cross":
+		d := zeroSum(r, 2)
+		set(&ins[0].Sigs[r.Intn(len(ins[0].Sigs))], d[0], false)
+		set(&ins[1].Sigs[r.Intn(len(ins[1].Sigs))], d[1], false)
+	}
+	return Case{Op: "inputs", Kind: kind, Inputs: ins, Privs: p.privs, NMaps: nIn, TxType: -1,
+		Extra: hex.EncodeToString(r.Bytes(r.Intn(8)))}
+}
+
 func gen(c *vh.Ctx) Case {
 	r := c.Rng
 	tampers := 1
@@ -541,16 +731,20 @@ func gen(c *vh.Ctx) Case {
 	}
 	x := r.Intn(100)
 	switch {
-	case x < 42:
+	case x < 39:
 		return genMap(r, tampers)
-	case x < 72:
+	case x < 43:
+		return genCancelInputs(r, "")
+	case x < 71:
 		return genAgg(r, tampers)
-	case x < 78:
+	case x < 76:
 		return genScript(r)
-	case x < 88:
+	case x < 85:
 		return genSch(r, false)
-	case x < 98:
+	case x < 93:
 		return genSch(r, true)
+	case x < 98:
+		return genCancelBatch(r, "")
 	case x < 99:
 		p := &pool{r: r}
 		ins, _ := baseInputs(r, p, 1, false)
@@ -679,6 +873,13 @@ func corpus() []Case {
 			Entries: []SchEntry{{Priv: hex.EncodeToString(a[:]), Nonce: hex.EncodeToString(k[:]), Mode: m}}})
 	}
 	out = append(out, Case{Op: "batch", Kind: "batch", Msg: hex.EncodeToString(r.Bytes(32)), TxType: -1})
+	// linear cancellation: every family, directly and through the whole validation
+	for _, f := range cancelFamilies {
+		out = append(out, genCancelBatch(r, f))
+	}
+	for _, k := range cancelInputKinds {
+		out = append(out, genCancelInputs(r, k))
+	}
 	return out
 }
 
